@@ -600,6 +600,70 @@ class GeminiServerProtocol(asyncio.Protocol):
 
         client_ip = self.peer_name[0] if self.peer_name else "unknown"
 
+        # Uploads pass through the middleware chain like Gemini requests do
+        if self.middleware:
+            try:
+                task = asyncio.create_task(
+                    self.middleware.process_request(
+                        self.titan_request.normalized_url,
+                        client_ip,
+                        self.titan_request.client_cert_fingerprint,
+                    )
+                )
+                task.add_done_callback(
+                    lambda t: self._handle_titan_middleware_result(t, client_ip)
+                )
+                return
+            except RuntimeError:
+                # No event loop running (probably in tests) - skip middleware
+                logger.warning(
+                    "middleware_skipped",
+                    client_ip=client_ip,
+                    reason="no_event_loop",
+                )
+
+        self._dispatch_titan_upload(client_ip)
+
+    def _handle_titan_middleware_result(self, task: asyncio.Task, client_ip: str) -> None:
+        """Handle the result of middleware processing for a Titan upload.
+
+        Args:
+            task: The completed asyncio task.
+            client_ip: The client's IP address.
+        """
+        try:
+            allow, error_response = task.result()
+        except (Exception, asyncio.CancelledError) as e:
+            logger.error(
+                "middleware_error",
+                client_ip=client_ip,
+                error=str(e),
+                exception_type=type(e).__name__,
+            )
+            self._send_error_response(StatusCode.TEMPORARY_FAILURE, "Middleware error")
+            return
+
+        if not allow:
+            if self.transport and error_response:
+                self.transport.write(error_response.encode("utf-8"))
+                self.transport.close()
+            else:
+                self._send_error_response(
+                    StatusCode.TEMPORARY_FAILURE, "Request refused"
+                )
+            return
+
+        self._dispatch_titan_upload(client_ip)
+
+    def _dispatch_titan_upload(self, client_ip: str) -> None:
+        """Invoke the upload handler for the completed Titan request.
+
+        Args:
+            client_ip: The client's IP address.
+        """
+        if not self.upload_handler or not self.titan_request:
+            return
+
         try:
             # Create async task for upload handler
             task = asyncio.create_task(
